@@ -113,6 +113,36 @@ class Gen:
             n = ch.int(2, 3)
         return [self.obj(ch.choice(types), 0) for _ in range(n)]
 
+    def forced_document(self, combo):
+        """A document that is guaranteed to contain the keyword slot / alternative `combo` = (type, key, alt index)
+        with a drawn value, among drawn neighbours, at the root or nested in a drawn parent chain."""
+        ch, p = self.ch, self.p
+        t, k, ai = combo
+        slot = vocab.slots(t)[k]
+        alt = slot.alts[ai]
+        o = self.obj(t, 1)
+        if p.valid or not p.dups:
+            o["items"] = [it for it in o["items"] if not (it[0] == "attr" and it[1] == k)]
+        its = self.slot_items(t, slot, alt, 1)
+        if its:
+            pos = ch.int(0, len(o["items"]))
+            o["items"][pos:pos] = its
+            self.count("forced_slot")
+        # optionally nest it in a parent that admits this type
+        parents = [(pt, pk, lst) for (pt, pk, c, lst) in vocab.child_edges() if c == t and pt != "symbolset"
+                   and not (c == "symbol" and pt in ("style", "class") and not p.inline_symbol)]
+        doc_obj = o
+        for _ in range(ch.int(0, 2)):
+            if not parents:
+                break
+            pt, pk, lst = ch.choice(parents)
+            par = self.obj(pt, 3)   # depth 3: few further children of its own
+            par["items"] = [it for it in par["items"] if not (it[0] == "obj" and it[1]["t"] == doc_obj["t"])] if p.valid else par["items"]
+            par["items"].insert(ch.int(0, len(par["items"])), ["obj", doc_obj])
+            doc_obj = par
+            parents = [(a, b, c2) for (a, b, c, c2) in vocab.child_edges() if c == pt and a != "symbolset"]
+        return [doc_obj]
+
     def obj(self, type_, depth):
         ch, p = self.ch, self.p
         sl = vocab.slots(type_)
@@ -424,3 +454,24 @@ class RandCh:
 
     def draw(self, strategy):
         return strategy.example()
+
+
+_COMBOS = None
+
+
+def slot_combos():
+    """every (object type, keyword, alternative index) of the vocabulary"""
+    global _COMBOS
+    if _COMBOS is None:
+        _COMBOS = [(t, k, i) for t in vocab.OBJ_TYPES for k, s in vocab.slots(t).items() for i, _ in enumerate(s.alts)]
+    return _COMBOS
+
+
+def any_document(gen, forced_share=3):
+    """1 in `forced_share` documents is built around a drawn (type, keyword, alternative) so that every slot of
+    the vocabulary is visited with drawn values in every run, not only statistically."""
+    ch = gen.ch
+    if not gen.p.roots and ch.chance(1, forced_share):
+        combos = slot_combos()
+        return gen.forced_document(combos[ch.int(0, len(combos) - 1)])
+    return gen.document()
